@@ -109,6 +109,27 @@ def gen(ctx):
                 expect.append([g.show_response(hist), "io", "ueof"])
                 cases.append(" ".join(["recv", fl, "0", "eof", hexs(st1), hexs(part), "!", hexs(b"OK\n")]))
                 expect.append([g.show_response(hist), "io", g.show_response({"form": "single", "frames": [{"fields": [(name(n_names + j), "w") for j in range(n_new)], "bin": None, "binpos": None}], "error": None, "partial": None}), "eof"])
+    # what follows the greeting arrives in the same read as the greeting (connect keeps it for the first receive): every cut of the
+    # stream, the greeting and the cut stream in one chunk, or the greeting with the first bytes and then the rest
+    G = b"OK MPD 0.23.5\n"
+    conn_streams = [corpus[0], corpus[1], [smallr, listr], [binr]] + [[g.gen_response(rng, payload_max=20)] for _ in range(3 if ctx.tier == "quick" else 40)]
+    for rs in conn_streams:
+        encs = [g.enc_response(r) for r in rs]
+        shows = [g.show_response(r) for r in rs]
+        st = b"".join(encs)
+        bounds = [0]
+        for e_ in encs:
+            bounds.append(bounds[-1] + len(e_))
+        cuts = range(len(st) + 1) if len(st) <= 120 else sorted(set(rng.randrange(len(st) + 1) for _ in range(60)) | {0, len(st)})
+        for cut in cuts:
+            done = max(i for i, bnd in enumerate(bounds) if bnd <= cut)
+            exp = ["connected:" + hexs(b"0.23.5")] + shows[:done] + ["eof" if cut == bounds[done] else "ueof"]
+            t = st[:cut]
+            j = rng.randrange(len(t) + 1)
+            for seg in ([G + t], [G + t[:j], t[j:]] if t[j:] else [G + t], [G[:5], G[5:] + t]):
+                for fl in "ab":
+                    cases.append(g.case_line("conn", fl, 0, "eof", seg))
+                    expect.append(exp)
     # greeting: every proper prefix of a valid greeting line is an unexpected EOF
     for v in (b"0.23.5", b"x", "0.21.11 ä".encode()):
         gr = b"OK MPD " + v + b"\n"
